@@ -92,21 +92,35 @@ def check(ck):
                   detail=f"writers: {sorted({fn.short for fn in writers})}")
         ck.count("schema_attributes_read_while_parsing", n, 2)
     with ck.rule("R3"):
+        from ..pathtab import outcome_rows, truth
         c = repo.func("tartiflette/engine.py", "Engine.cook")
-        st = [n for n in walk_no_nested(c.node) if isinstance(n, ast.Assign) and unparse(n.targets[0]) == "self._cached_parse_and_validate_query"]
-        ok = len(st) == 1 and ifexp_parts(st[0].value) == ("callable(query_cache_decorator)", "query_cache_decorator(parse_and_validate_query)", "parse_and_validate_query")
-        ck.ob("Engine.cook: a callable decorator is applied to parse_and_validate_query, anything else means no cache", ok, c, st[0] if st else c.node, construct="config:cook")
         i = repo.func("tartiflette/engine.py", "Engine.__init__")
-        st = [n for n in walk_no_nested(i.node) if isinstance(n, ast.Assign) and unparse(n.targets[0]) == "self._query_cache_decorator"]
-        ok = len(st) == 1 and ifexp_parts(st[0].value) == ("query_cache_decorator is not UNDEFINED_VALUE", "query_cache_decorator", "lru_cache(maxsize=512)")
-        ck.ob("Engine.__init__: the default cache is an lru_cache created per engine instance (not shared between engines)", ok, i, st[0] if st else i.node, construct="config:default")
+        # what each path stores (locals resolved), whatever the spelling: conditional expression, if/else, reassigned parameter
+        seen = set()
+        from ..q import inlined_view
+        for row in outcome_rows(inlined_view(repo, i)):
+            v = row["sym"].get("@self._query_cache_decorator")
+            seen.add((truth(row, "query_cache_decorator is UNDEFINED_VALUE"), unparse(v) if v is not None else None))
+        ck.ob("Engine.__init__: the default cache is an lru_cache created per engine instance (not shared between engines), a given decorator is kept",
+              seen == {("T", "lru_cache(maxsize=512)"), ("F", "query_cache_decorator")}, i, i.node, construct="config:default", detail=str(sorted(map(str, seen))))
+        seen = set()
+        fc = {"self._cached_parse_and_validate_query", "query_cache_decorator"}
+        for row in outcome_rows(inlined_view(repo, c, focus=fc)):
+            v = row["sym"].get("@self._cached_parse_and_validate_query")
+            if v is None:
+                continue
+            und = truth(row, "query_cache_decorator is UNDEFINED_VALUE")
+            dec = "self._query_cache_decorator" if und == "T" else "query_cache_decorator"
+            call = truth(row, f"callable({dec})")
+            seen.add((und, call, unparse(v)))
+        want = {(u, "T", f"{d}(parse_and_validate_query)") for u, d in (("T", "self._query_cache_decorator"), ("F", "query_cache_decorator"))} | \
+            {(u, "F", "parse_and_validate_query") for u in ("T", "F")}
+        ck.ob("Engine.cook: an unspecified decorator falls back to the engine's own; a callable decorator is applied to parse_and_validate_query, anything else means no cache",
+              seen == want, c, c.node, construct="config:cook", detail=str(sorted(map(str, seen))))
         mods = [m.relpath for m in repo.modules.values() for k, v in m.assigns.items() if isinstance(v, ast.Call) and "lru_cache" in unparse(v.func)]
         deco = [f.short for f in repo.all_funcs() if any("lru_cache" in d or d in ("cache", "functools.cache") for d in f.decorators)]
         ck.ob("no module-level cache or cached function in the package (all caching goes through the engine's decorator)", not mods and not deco, where="tartiflette/",
               construct="config:no-other-cache", detail=str(mods + deco))
-        fb = [n for n in walk_no_nested(c.node) if isinstance(n, ast.If) and unparse(n.test) == "query_cache_decorator is UNDEFINED_VALUE"]
-        ck.ob("Engine.cook: an unspecified decorator falls back to the engine's own", len(fb) == 1 and unparse(fb[0].body[0]) == "query_cache_decorator = self._query_cache_decorator", c,
-              fb[0] if fb else c.node, construct="config:fallback")
     with ck.rule("R5"):
         _r5(ck, repo, ph)
     with ck.rule("R4"):
